@@ -5,13 +5,14 @@
 // upgrade path (poller-driven, blocking with the engine's parser loop, blocking with the connection's own HandleRead loop,
 // transferred to the poller from a blocking engine and from net/http, mixed) x epoll mode x write mode (direct / send queue),
 // raw TCP clients speaking RFC 6455 themselves.
-//   wire oracle      many goroutines call WriteMessage / WriteFrame on one connection with messages larger than
-//                    MaxWebsocketFramePayloadSize while message callbacks write echoes and pongs: every message must arrive
-//                    as ONE uninterrupted frame sequence, exactly once per writer and sequence number, in per-writer order.
-//   callback oracle  per connection log of open / message begin / message end / close: open completed before the first
-//                    message callback, message callbacks never overlap and follow wire order, close exactly once and after
-//                    the last message callback - also when the peer disconnects, or another goroutine closes the connection,
-//                    or the engine stops, while a handler is running.
+//
+//	wire oracle      many goroutines call WriteMessage / WriteFrame on one connection with messages larger than
+//	                 MaxWebsocketFramePayloadSize while message callbacks write echoes and pongs: every message must arrive
+//	                 as ONE uninterrupted frame sequence, exactly once per writer and sequence number, in per-writer order.
+//	callback oracle  per connection log of open / message begin / message end / close: open completed before the first
+//	                 message callback, message callbacks never overlap and follow wire order, close exactly once and after
+//	                 the last message callback - also when the peer disconnects, or another goroutine closes the connection,
+//	                 or the engine stops, while a handler is running.
 package main
 
 import (
